@@ -76,9 +76,11 @@ func HarnessRedeployTraffic() {
 			}
 		}
 		// a request that obtained the Service object the redeploy replaces and reaches its target while that is being drained
-		// (history class of the known finding: lookup(req) < swap < drain_begin(old target))
+		// (history class of the known finding: the request holds the Service object that is no longer installed, and the
+		// drain of the replaced target began after the swap; the position of the lookup event itself is not used - the
+		// wrapper emits it after the lookup returned, possibly several scheduling points later)
 		stale := false
-		if li, si, di := vIndexOf("lookup", c), vIndexOf("swap", -1), vIndexOf("drain_begin", -1); li >= 0 && si > li && di > si {
+		if li, si, di := vIndexOf("lookup", c), vIndexOf("swap", -1), vIndexOf("drain_begin", -1); li >= 0 && si >= 0 && di > si {
 			got, _ := vTrace[li].obj.(*Service)
 			stale = got != nil && got != router.serviceForName("svc")
 		}
